@@ -1,5 +1,6 @@
 import SamVerif.Drive.Common
 import SamVerif.Model.Hotkey
+import SamVerif.Model.HotShare
 namespace SamVerif.Drive.C19
 open SamVerif SamVerif.Drive SamVerif.Hotkey
 
@@ -94,10 +95,35 @@ def handle (kind : String) (args : List String) (impl : String) : String :=
       let m := if sorted.isEmpty then "-" else ",".intercalate sorted
       verdict impl m m
   | "c19.share", capS :: ops =>
-    -- the counter of a backend is shared by the connections to it: the one that is still open keeps counting exactly
+    -- `Model.HotShare`: the counter of a backend is held by two connections; the one that is still open keeps counting exactly
+    -- whatever happens to the other (`Props.C19s.live_counter_is_its_own`)
     match capS.toNat? with
     | some cap =>
-      let outs := runCnt { cap := cap, nodes := [] } ops
+      let rec go (s : HotShare.Shared) : List String → List String
+        | [] => []
+        | o :: rest =>
+          if o.startsWith "i" then
+            match (o.drop 1).toString.toNat? with
+            | none => ["bad-op"]
+            | some k =>
+              match HotShare.step s (.incr k) with
+              | none => ["panic"]
+              | some s' => showNodes s'.c.nodes :: go s' rest
+          else if o == "l" then
+            let l := (latch s.c).1
+            match HotShare.step s .latch with
+            | none => ["panic"]
+            | some s' => (showLatch l ++ showNodes s'.c.nodes) :: go s' rest
+          else if o == "F" then
+            -- the other connection is stopped (only once: a second F is a no-op of the harness)
+            let s' := (HotShare.step s .freeOther).getD s
+            showNodes s'.c.nodes :: go s' rest
+          else if o == "f" then
+            -- the live connection is stopped too: the last holder empties the counter
+            let s' : HotShare.Shared := { s with c := { s.c with nodes := [] } }
+            showNodes s'.c.nodes :: go s' rest
+          else ["bad-op"]
+      let outs := go { c := { cap := cap, nodes := [] }, refs := 2 } ops
       let m := if outs.isEmpty then "-" else "|".intercalate outs
       verdict impl m m
     | none => "bad-op"
